@@ -163,8 +163,8 @@ def run(tier, work):
             continue
         v.count("differences")
         key = context_key(jobs[base_i]["files"]["t.rb"], kind, at if at < 10 ** 9 else len(jobs[base_i]["files"]["t.rb"].split("\n")))
-        if key in v.known:
-            v.known_hit(key)
+        if v.seen(key):
+            v.again(key)
             continue
         # confirm black-box, alone
         bb = C.confirm_alone(work, {"cfg": job["cfg"], "files": jobs[base_i]["files"], "args": job["args"]}, runs=1)[0]
